@@ -4,7 +4,7 @@
    "bounded number of the request's own steps, each of them enabled". Version V1 is the code after the
    fix "broker requests could block forever around the proxy and client timeouts"; V0 is the pinned code. *)
 From Coq Require Import List NArith ZArith Bool Arith.
-From Snow Require Import Model.Broker Proofs.BrokerProofs Proofs.BrokerSteps Proofs.BrokerThms Proofs.BrokerBounds.
+From Snow Require Import Model.Broker Proofs.BrokerProofs Proofs.BrokerSteps Proofs.BrokerThms Proofs.BrokerBounds Proofs.BrokerLate.
 Import ListNotations.
 Open Scope N_scope.
 
@@ -83,6 +83,36 @@ Theorem C04_no_request_blocked : forall br s p e,
       exists s1, step V1 s (L_WTimeoutCS p) = Some s1 /\ step V1 s1 (L_RvOffer p) <> None)) /\
   (e_senders e <> [] -> step V1 s (L_AnswerPut p) <> None).
 Proof. exact no_request_blocked. Qed.
+
+(* ---- repeated session ids. Nothing above assumes that the session ids of the polls are distinct: [reachable]
+   ranges over label sequences with ANY sids, so every theorem of this file covers a proxy that POSTs the same poll
+   again while its earlier one is pending, matched, or just answered. What the code does with such a poll, explicitly:
+   AddSnowflake always creates a NEW record with its own waiter (5 own steps to go, C04_per_request_step_bound applies
+   to it); the records registered before - also the one under the same id - are untouched; only the id map now
+   resolves the id to the new poll (and the waiter / client that deregisters first removes the binding whichever
+   record it points to: C04_quiescent_clean holds all the same). ---- *)
+Theorem C04_repeated_sid_registers_anew : forall v s sd n pt cl,
+  exists s', step v s (L_Poll sd n pt cl) = Some s' /\
+    entries s' = entries s ++ [new_entry sd n pt cl] /\
+    lookup sd (idmap s') = Some (length (entries s)) /\
+    (forall p e, nth_error (entries s) p = Some e -> nth_error (entries s') p = Some e) /\
+    pm s' (length (entries s)) = 5%nat.
+Proof. exact poll_always_registers. Qed.
+
+(* non-vacuity: the same sid polled three times (while pending); a client is handed the first; the answer posted
+   under the shared id resolves to the newest poll and waits there; the first poll's client times out, the other two
+   polls expire: every request completes (each poll in at most 5 own steps), nothing is left behind. *)
+Example C04_repeated_sid_example :
+  let ls := [L_Poll 1 NatUnrestricted 1 0; L_Poll 1 NatUnrestricted 1 0; L_Poll 1 NatUnrestricted 1 0;
+             L_Client NatRestricted (Some 7) 100 (Some 0%nat); L_RvOffer 0; L_RvForward 0;
+             L_Answer 1 500; L_AnswerPut 2;
+             L_FireW 1; L_WTake 1; L_WTimeoutCS 1; L_FireW 2; L_WTake 2; L_WTimeoutCS 2;
+             L_FireC 0; L_CTake 0; L_CCleanup 0] in
+  exists s, run V1 (init [(7, 9)]) ls = Some s /\ quiescent s = true /\ idmap s = [] /\ gauge s = 0%Z /\
+    count_own w_label 1 ls = 3%nat /\ count_own w_label 2 ls = 3%nat /\
+    pm s 0 = 0%nat /\ pm s 1 = 0%nat /\ pm s 2 = 0%nat /\ cmm s 0 = 0%nat /\
+    map (fun '(_, sd, a, ok) => (sd, a, ok)) (done_answers s) = [(1, 500, true)].
+Proof. eexists. vm_compute. repeat split. Qed.
 
 (* non-vacuity: poll 0 and its client complete in 5 resp. 3 (at most 4: the answer came before the timer) own steps while two more polls, another client, an
    answer and a re-installation of the bridge list arrive in between; the state (2) of C04_no_request_blocked (client
